@@ -26,6 +26,10 @@ package latency
 //@   ensures [one-sample-counted C15] l.count == wrap64s(old(l.count) + 1)
 //@   ensures [max-tracks-the-largest C15] l.max >= old(l.max)
 //@   ensures [min-tracks-the-smallest C15] old(l.min) != 0 ==> l.min <= old(l.min)
+//@   ensures [sample-added-to-the-total C15] l.totalDiff == wrap64s(old(l.totalDiff) + quo(lat, l.scaleFactor))
+//@   ensures [max-is-the-larger C15] l.max == ite(lat > old(l.max), lat, old(l.max))
+//@   ensures [min-is-the-smaller-or-the-first C15] l.min == ite(lat < old(l.min) || old(l.min) == 0, lat, old(l.min))
+//@   ensures [batch-starts-with-its-first-sample C15] tinst(l.start) == ite(old(tinst(l.start)) == tinst(zero("time.Time")), tinst(nowTime), old(tinst(l.start)))
 
 // A non-empty slot is added to the window's totals and kept; an empty one is ignored.
 //@ func (*window).add
@@ -43,11 +47,15 @@ package latency
 //@   requires WinOK(w) && m != nil
 //@   invariant 0: max >= 0 && (forall j int :: 0 <= j && j < $i ==> w.slots[j].max <= max)
 //@   assert at call Metadata.SetInt#0: [exported-max-bounds-every-slot C15] forall j int :: 0 <= j && j < len(w.slots) ==> w.slots[j].max <= arg1
+//@   assert at call Metadata.SetInt#0: [exported-under-the-given-name C15] arg0 == name && arg1 == max
+//@   ensures [exported-exactly-when-not-zero C15] hits("call Metadata.SetInt#0") == old(hits("call Metadata.SetInt#0")) + ite(max != 0, 1, 0)
 //@ func (*window).setMin
 //@   props C15 C12
 //@   requires WinOK(w) && m != nil
 //@   invariant 0: min <= w.slots[0].min && (forall j int :: 1 <= j && j < $i + 1 ==> w.slots[j].min >= min)
 //@   assert at call Metadata.SetInt#0: [exported-min-bounds-every-slot C15] forall j int :: 0 <= j && j < len(w.slots) ==> w.slots[j].min >= arg1
+//@   assert at call Metadata.SetInt#0: [exported-under-the-given-name C15] arg0 == name && arg1 == min
+//@   ensures [exported-exactly-when-not-zero C15] len(w.slots) > 0 ==> hits("call Metadata.SetInt#0") == old(hits("call Metadata.SetInt#0")) + ite(min != 0, 1, 0)
 //@ func (*window).setAvg
 //@   props C15 C12
 //@   arith wrap
